@@ -170,6 +170,9 @@ pub struct Cfg {
     pub log_cap: usize,
     /// report and leave the process at the first hard violation (worker mode)
     pub hard_exit: bool,
+    /// light monitoring (slow interpreters): no event log, sweep only every `sweep_every` ops
+    pub light: bool,
+    pub sweep_every: usize,
 }
 
 pub struct World {
@@ -210,7 +213,7 @@ pub struct World {
 }
 
 thread_local! {
-    static WORLD: RefCell<World> = RefCell::new(World::new(Cfg{class: Class::Wf, check_links: true, check_mem: true, log_cap: 4096, hard_exit: false}));
+    static WORLD: RefCell<World> = RefCell::new(World::new(Cfg{class: Class::Wf, check_links: true, check_mem: true, log_cap: 4096, hard_exit: false, light: false, sweep_every: 1}));
 }
 
 pub fn with<R>(f: impl FnOnce(&mut World) -> R) -> R {
@@ -307,6 +310,9 @@ impl World {
     pub fn ev(&mut self, e: Ev) {
         self.ev_count += 1;
         self.stats.events += 1;
+        if self.cfg.light {
+            return;
+        }
         if self.log.len() < self.cfg.log_cap {
             self.log.push(e);
         }
@@ -733,7 +739,7 @@ impl World {
         self.objs[id as usize].state = St::Dying;
         self.dying_stack.push((id, ptr));
         self.op_destroyed.push(id);
-        if self.cfg.check_links && !self.stop {
+        if self.cfg.check_links && !self.stop && !self.cfg.light {
             // the dying object must already have vanished from its peers' tables when user code
             // first runs
             crate::exec::check_links(self, true);
